@@ -684,7 +684,8 @@ class Model:
         """
         if (cache := self._cache) is None:
             cache = self._create_cache()
-        return cache.base_parameter_values
+        # A copy: the caller must not be able to edit the cached values
+        return dict(cache.base_parameter_values)
 
     def get_parameter_names(self) -> list[str]:
         """Retrieve the names of the parameters.
@@ -1031,7 +1032,8 @@ class Model:
         """
         if (cache := self._cache) is None:
             cache = self._create_cache()
-        return cache.initial_conditions
+        # A copy: the caller must not be able to edit the cached values
+        return dict(cache.initial_conditions)
 
     def get_variable_names(self) -> list[str]:
         """Retrieve the names of all variables.
